@@ -173,6 +173,79 @@ class Poly:
         return " + ".join(parts)
 
 
+def _vec(m, atoms):
+    d = dict(m)
+    return tuple(d.get(a, 0) for a in atoms)
+
+
+def poly_div_exact(n: "Poly", d: "Poly"):
+    """q with d*q == n, or None (multivariate division in lexicographic order)."""
+    if d.is_zero():
+        return None
+    if d.is_const():
+        c = d.const_value()
+        return Poly({m: v / c for m, v in n.t.items()})
+    if n.is_zero():
+        return Poly()
+    atoms = sorted(n.atoms() | d.atoms())
+    dl = max(d.t, key=lambda m: _vec(m, atoms))
+    dlv, dlc = _vec(dl, atoms), d.t[dl]
+    r = dict(n.t)
+    q = {}
+    guard = 0
+    while r:
+        guard += 1
+        if guard > 5000:
+            return None
+        lm = max(r, key=lambda m: _vec(m, atoms))
+        lv = _vec(lm, atoms)
+        qv = tuple(a - b for a, b in zip(lv, dlv))
+        if any(x < 0 for x in qv):
+            return None
+        qm = tuple((a, e) for a, e in zip(atoms, qv) if e)
+        qc = r[lm] / dlc
+        q[qm] = q.get(qm, 0) + qc
+        for m2, c2 in d.t.items():
+            mm = _mono_mul(qm, m2)
+            nv = r.get(mm, 0) - qc * c2
+            if nv == 0:
+                r.pop(mm, None)
+            else:
+                r[mm] = nv
+    return Poly(q)
+
+
+def simplify(r: "Rat") -> "Rat":
+    """Cheap exact simplifications: zero numerator, exact division, common monomial / constant content."""
+    n, d = r.n, r.d
+    if n.is_zero():
+        return Rat(Poly(), Poly.const(1))
+    if d.is_const():
+        c = d.const_value()
+        return Rat(Poly({m: v / c for m, v in n.t.items()}), Poly.const(1)) if c != 1 else r
+    q = poly_div_exact(n, d)
+    if q is not None:
+        return Rat(q, Poly.const(1))
+    q = poly_div_exact(d, n)
+    if q is not None and len(n.t) > 1:
+        return Rat(Poly.const(1), q)
+    # common monomial factor
+    atoms = sorted(n.atoms() | d.atoms())
+    mins = None
+    for m in list(n.t) + list(d.t):
+        v = _vec(m, atoms)
+        mins = v if mins is None else tuple(min(a, b) for a, b in zip(mins, v))
+    if mins and any(mins):
+        inv = tuple((a, -e) for a, e in zip(atoms, mins) if e)
+        n = Poly({_mono_mul(m, inv): c for m, c in n.t.items()})
+        d = Poly({_mono_mul(m, inv): c for m, c in d.t.items()})
+    lc = d.t[max(d.t, key=lambda m: _vec(m, atoms))]
+    if lc != 1:
+        n = Poly({m: c / lc for m, c in n.t.items()})
+        d = Poly({m: c / lc for m, c in d.t.items()})
+    return Rat(n, d)
+
+
 class Rat:
     """num/den with the algebraic rules of the owning Algebra applied by the Algebra."""
     __slots__ = ("n", "d")
@@ -184,6 +257,13 @@ class Rat:
     def __add__(self, o):
         if self.d == o.d:
             return Rat(self.n + o.n, self.d)
+        if not self.d.is_const() and not o.d.is_const():
+            q = poly_div_exact(self.d, o.d)
+            if q is not None:
+                return Rat(self.n + o.n * q, self.d)
+            q = poly_div_exact(o.d, self.d)
+            if q is not None:
+                return Rat(self.n * q + o.n, o.d)
         return Rat(self.n * o.d + o.n * self.d, self.d * o.d)
 
     def __neg__(self):
@@ -225,7 +305,8 @@ class Algebra:
 
     # ---- construction
     def const(self, c):
-        return Rat(Poly.const(Fraction(c).limit_denominator(10**12) if isinstance(c, float) else Fraction(c)))
+        # a float literal denotes the decimal number the programmer wrote (0.25, 1e-16, ...)
+        return Rat(Poly.const(Fraction(repr(c)) if isinstance(c, float) else Fraction(c)))
 
     def atom(self, name):
         return Rat(Poly.atom(name))
